@@ -77,10 +77,10 @@ CHECKS["C09"] = dict(
 
 CHECKS["C04"] = dict(
     engine="mirsym",
-    technique="SMT (z3/cvc5; arrays over abstract string identities, bit-vectors) over a symbolic execution of the real MIR of the async state machines DhtNetworkManager::{handle_dht_response, send_dht_request, sweep_expired_operations}, TransportHandle::send_request and the spawned receive loop of TransportHandle::start_message_receiving_system (its async block polled in place on one inbound frame), with the transport send, the wait for the reply, the frame / envelope decoders and the clock as arbitrary environment outcomes",
+    technique="SMT (z3/cvc5; arrays over abstract string identities, bit-vectors) over a symbolic execution of the real MIR of the async state machines DhtNetworkManager::{handle_dht_response, send_dht_request, sweep_expired_operations}, TransportHandle::send_request, the spawned receive loop of TransportHandle::start_message_receiving_system (its async block polled in place on one inbound frame) and DhtCoreEngine::{query_node_for_key, handle_response}, with the transport send, the wait for the reply, the frame / envelope decoders and the clock as arbitrary environment outcomes",
     category="proof",
-    text="PARTIAL claim (the sequential steps of the property). One reply against an ARBITRARY pending table, for DHT RPCs (handle_dht_response) and for /rr/ requests (the receive loop of the transport): it completes only the request carrying its identifier, only when it arrives from the contacted / expected peer (transport sender, never the id claimed in the payload), at most once, and touches no other pending request; unknown ids, other senders, duplicates and result-less replies change nothing (in particular a reply from the wrong peer leaves the request pending with its channel intact). One DHT request / one /rr/ request from an arbitrary pending table, for every outcome of the transport send and of the wait (reply, closed channel, timeout): nothing of the request remains in the pending table afterwards, other pending requests that are still within their own timeout are untouched, the /rr/ table refuses at its cap of 256 before anything is registered or sent. Counterexamples are replayed natively on real managers / transport handles / connected nodes on loopback.",
-    note="NOT claimed: interleavings of several tasks (each pending table is guarded by one lock; the symbolic execution is single-task), timeouts as real time, DhtCoreEngine::pending_requests. Natively only the send-error and cap paths of the senders can be forced (a counterexample needing a successful send is reported as inconclusive, exit 2); keepalive / undecodable frames cannot be injected natively. Trusts the summaries (HashMap as arrays, strings as identities, oneshot send = delivery, uuid fresh, mpsc channel yields one frame).",
+    text="PARTIAL claim (the sequential steps of the property). One reply against an ARBITRARY pending table, for DHT RPCs (handle_dht_response) and for /rr/ requests (the receive loop of the transport): it completes only the request carrying its identifier, only when it arrives from the contacted / expected peer (transport sender, never the id claimed in the payload), at most once, and touches no other pending request; unknown ids, other senders, duplicates and result-less replies change nothing (in particular a reply from the wrong peer leaves the request pending with its channel intact). One DHT request / one /rr/ request from an arbitrary pending table, for every outcome of the transport send and of the wait (reply, closed channel, timeout): nothing of the request remains in the pending table afterwards, other pending requests that are still within their own timeout are untouched, the /rr/ table refuses at its cap of 256 and the core engine's query table at its cap of 10 000 before anything is registered or sent; a response to a core-engine query completes exactly the query with its id, once. Counterexamples are replayed natively on real managers / transport handles / connected nodes on loopback.",
+    note="NOT claimed: interleavings of several tasks (each pending table is guarded by one lock; the symbolic execution is single-task), timeouts as real time, sender authorisation of core-engine responses (DhtCoreEngine::handle_response takes no sender and has no caller in the crate). Natively only the send-error and cap paths of the senders can be forced (a counterexample needing a successful send is reported as inconclusive, exit 2); keepalive / undecodable frames cannot be injected natively. Trusts the summaries (HashMap as arrays, strings as identities, oneshot send = delivery, uuid fresh, mpsc channel yields one frame).",
     design_ref="8.8, 8.10",
 )
 
